@@ -13,7 +13,7 @@ import (
 
 func init() {
 	Registry["C10"] = Prop{
-		Patterns: []string{"./ring", "./concurrency"},
+		Patterns: []string{"./ring", "./concurrency", "./grpcutil"},
 		Run:      runC10,
 		Explanation: "Decides structural necessary conditions of 'batched quorum writes always finish, with quorum per key' in ring.DoBatchWithOptions and batchTracker.record: (R1) the completion latch cannot be armed with a zero count: the wait is unreachable for an empty key list and the pending counter is initialised with the number of keys; " +
 			"(R2) every send on the done/err channels is guarded by the single-winner atomic test and the channels have capacity ≥ 1, so no recording goroutine can block; (R3) on every entry→return path Cleanup is invoked exactly once (directly, or by the one goroutine that first waits for the wait group); " +
@@ -34,7 +34,7 @@ func runC10(c *core.Ctx) {
 	c.Rule("R9", "DoBatch is a pure delegation to DoBatchWithOptions (no second batching path)", 1)
 	c.Rule("R10", "per-key decision table of batchTracker.record (immediate error on tolerance exceeded, error at the last replica, success at quorum)", 1)
 	c.Rule("R13", "spawners handed to DoBatch never run the workload on the caller's goroutine; the emptiness guard counts every registered instance", 3)
-	c.Rule("R12", "the default error classifier sees through wrapped errors and is what DoBatch and defaulted options use", 2)
+	c.Rule("R12", "the default error classifier sees through every wrapper (errors.As), is what DoBatch and defaulted options use, and is never wrapped", 3)
 	c.Rule("R11", "recordError stores every error and counts it in exactly one family", 1)
 	pkg := c.Prog.Pkg("ring")
 	defer c10Decision(c)
@@ -668,6 +668,49 @@ func c10Classifier(c *core.Ctx) {
 		})
 	}
 	c.Check(okDef, "R12", "default:IsClientError", fn.Pos(), "replaceZeroValuesWithDefaults installs isHTTPStatus4xx when no classifier is given", 1)
+	// the classifier the tracker calls is the caller's or the default, itself: the option is assigned once (the
+	// default, when nil) and never wrapped — classification must be a pure function of the error each time
+	if rz := an.FindFunc(pkg, "DoBatchOptions.replaceZeroValuesWithDefaults"); rz != nil {
+		var vals []string
+		rz.InspectDeep(func(n ast.Node) bool {
+			if as, isAs := n.(*ast.AssignStmt); isAs {
+				for i, l := range as.Lhs {
+					if sel, ok := an.Unparen(l).(*ast.SelectorExpr); ok && sel.Sel.Name == "IsClientError" && i < len(as.Rhs) {
+						vals = append(vals, rz.Canon(as.Rhs[i]))
+					}
+				}
+			}
+			return true
+		})
+		c.Check(len(vals) == 1 && vals[0] == "isHTTPStatus4xx", "R12", "default:IsClientError:only", rz.Pos(), fmt.Sprintf("the classifier option is assigned once, the default itself: %v", vals), 1)
+	}
+	// grpcutil.ErrorToStatusCode finds the status through errors.As (every wrapper, including multi-errors)
+	if gp := c.Prog.Pkg("grpcutil"); gp != nil {
+		if ef := an.FindFunc(gp, "ErrorToStatusCode"); ef != nil {
+			c.Analysed(ef.String())
+			as := 0
+			var other []string
+			for _, call := range ef.Calls(true) {
+				switch {
+				case call.Is("errors", "As") && len(call.Expr.Args) == 2 && ef.Canon(call.Expr.Args[0]) == "p0":
+					as++
+				case call.Is("errors", "Unwrap"), call.Is("errors", "Is"):
+					other = append(other, "errors."+call.Func().Name())
+				}
+			}
+			ef.InspectDeep(func(n ast.Node) bool {
+				if ta, ok := n.(*ast.TypeAssertExpr); ok && ta.Type != nil {
+					other = append(other, "type assertion on "+ef.Canon(ta.X))
+				}
+				return true
+			})
+			c.Check(as == 1 && len(other) == 0, "R12", "func=grpcutil.ErrorToStatusCode", ef.Pos(), fmt.Sprintf("the status is located with errors.As on the error itself (%d), with no hand-written unwrapping: %v", as, other), 1)
+		} else {
+			c.Miss("R12", "func=grpcutil.ErrorToStatusCode", "not found")
+		}
+	} else {
+		c.Miss("R12", "pkg=grpcutil", "not loaded")
+	}
 }
 
 // c10Spawners (R13): DoBatchWithOptions waits for the first decisive outcome while the replica calls run
